@@ -29,8 +29,8 @@ class Prop(SeqProp):
     pid = "C10"
     model = "spanset"
     anchors = ["windpyutils/structures/span_set.py"]
-    quick_cases = 1600
-    thorough_cases = 6000
+    quick_cases = 3200
+    thorough_cases = 30000
     rule = ("2-3 span collections per case (overlapping, nested, repeated, inverted, empty; ints and halves, int/float mixed) "
             "with relations drawn from all 4x4 combinations, both constructor forms and force_no_dup_check; then all four "
             "operators, nine comparisons and membership probes; results (span lists in order, booleans) compared with the Lean "
